@@ -15,7 +15,7 @@ import itertools
 import glom as G
 from glom import (glom, T, S, Coalesce, Call, Invoke, Check, Match, Fold, Merge, Iter, Assign, Delete, Glommer, Or, And, Switch, Val, Spec, M, Auto, Fill,
                   GlomError, PathAccessError, CoalesceError, UnregisteredTarget, BadSpec, CheckError, MatchError, TypeMatchError, FoldError,
-                  PathAssignError, PathDeleteError, Path, A, Pipe)
+                  PathAssignError, PathDeleteError, Path, A, Pipe, Ref)
 from glom.grouping import Group
 
 from ..engine import R, Sub
@@ -390,6 +390,14 @@ def skeletons():
     sk('call-func', 'pass', lambda inj: (3, Call(Fn(inj, 'func', lambda x: x), args=(T,)), glom))
     sk('invoke-func', 'pass', lambda inj: (3, Invoke(Fn(inj, 'func', lambda x, k=None: x)).specs(T).constants(k=1), glom))
     sk('invoke-spec-arg', 'pass', lambda inj: (3, Invoke(ident).specs(Fn(inj, 'argspec', ident)), glom))
+    # below a back-reference of a recursive Ref (the fault happens at recursion depth 1 and 2, not at depth 0)
+    sk('ref-recursion-callable', 'pass', lambda inj: ({'a': 0, 'kids': [{'a': 1, 'kids': [{'a': 2, 'kids': []}]}]},
+                                                      Ref('r', {'k': ('kids', [Ref('r')]), 'v': ('a', Fn(inj, 'leaf', ident))}), glom))
+    def deep_raising(inj):
+        d = mk_raising_getitem(inj)
+        dict.__setitem__(d, 'kids', [])
+        return {'a': 0, 'kids': [{'a': 0, 'kids': [d]}]}
+    sk('ref-recursion-getitem', 'PAE', lambda inj: (deep_raising(inj), Ref('r', {'v': 'a', 'k': ('kids', [Ref('r')])}), glom))
     sk('coalesce-skip-predicate', 'coalesce-skip', lambda inj: ({'a': 1}, Coalesce('a', 'a', skip=Fn(inj, 'skip', lambda v: False)), glom))
     sk('coalesce-default-factory', 'pass', lambda inj: ({'a': 1}, Coalesce('zz', default_factory=Fn(inj, 'factory', lambda: 0)), glom))
     sk('check-validator', 'Check', lambda inj: (3, Check(validate=Fn(inj, 'validator', lambda v: True)), glom))
